@@ -118,7 +118,7 @@ fn mixed_files(comp: u8) -> Vec<F> {
     vec![
         f("big.bin", text(2900, 1), comp, Crypt::No),
         f("small.txt", text(300, 2), comp, Crypt::No),
-        f("stored.dat", noise(200, 3), 0, Crypt::No),
+        f("stored.dat", noise(1200, 3), 0, Crypt::No), // multi-sector stored file (readable since 9cf2783)
         f("enc.bin", text(1700, 4), comp, Crypt::Key),
         f("dir\\fix.bin", text(1300, 5), comp, Crypt::FixKey),
         f("encsmall.txt", text(260, 6), comp, Crypt::Key),
